@@ -42,9 +42,12 @@ class Db:
         self.cache = {}
         th.dynamic = {}
         th.window = None
+        self.old_handles = {}       # Measurement objects obtained earlier in the history (kept across drops / remove_all)
+        self.nops = 0
         self.open()
 
     def open(self):
+        self.old_handles = {}
         if self.kind == "mem":
             self.db = self.tf.TinyFlux(storage=self.tf.storages.MemoryStorage, auto_index=self.auto_index)
         else:
@@ -195,7 +198,16 @@ class Db:
         op = a["op"]
         via = a.get("via", "db")
         m = a.get("m", NONE)
-        target = db.measurement(self.meas_name(m)) if via == "handle" else db
+        self.nops += 1
+        if via == "handle":
+            name = self.meas_name(m)
+            if name in self.old_handles and self.nops % 2 == 0:
+                target = self.old_handles[name]          # a handle obtained before the data changed
+            else:
+                target = db.measurement(name)
+                self.old_handles.setdefault(name, target)
+        else:
+            target = db
         mk = {} if via == "handle" else ({"measurement": self.meas_name(m)} if m != NONE else {})
         if op == "insert":
             p = th.point(tf, a["p"])
@@ -334,9 +346,11 @@ class Db:
         static = entry.endswith("_static")
         kw = {name: value} if static else {name: (lambda old, v=value: v)}
         companion = a.get("with", "none")
-        if companion != "none" and companion != name:
-            kw[companion] = {"time": th.val("time", 5), "measurement": th.val("meas", 2),
-                             "tags": {th.key("tag", 2): th.val("tag", 2)}, "fields": {th.key("field", 2): th.val("field", 2)}}[companion]
+        cname = companion.replace("_callable", "")
+        if companion != "none" and cname != name:
+            good = {"time": th.val("time", 5), "measurement": th.val("meas", 2),
+                    "tags": {th.key("tag", 2): th.val("tag", 2)}, "fields": {th.key("field", 2): th.val("field", 2)}}[cname]
+            kw[cname] = (lambda old, g=good: dict(g)) if companion.endswith("_callable") else good
         if entry.startswith("update_all"):
             return db.update_all(**kw)
         if entry.startswith("handle_"):
@@ -366,7 +380,7 @@ class Db:
         if u["tk"] == 1:
             kw["time"] = th.zoned(u["tv"], 2)
         elif u["tk"] == 2:
-            kw["time"] = lambda t, d=u["tv"]: un_t[rank_t[t.astimezone(timezone.utc)] + d]
+            kw["time"] = lambda t, d=u["tv"]: th.zoned(rank_t[t.astimezone(timezone.utc)] + d, 3)   # maybe in another zone
         if u["mk"] == 1:
             kw["measurement"] = th.val("meas", u["mv"])
         elif u["mk"] == 2:
@@ -380,6 +394,11 @@ class Db:
                 kw[arg] = mapping
             elif kind == 2:
                 kw[arg] = lambda old, mp=mapping: dict(mp)
+            elif kind == 4:
+                def inplace(old, mp=mapping):
+                    old.update(mp)          # mutates the mapping it was handed and returns the same object
+                    return old
+                kw[arg] = inplace
             else:
                 kw[arg] = lambda old, keys=tuple(mapping), rk=th._rank[slot], un=th._unrank[slot]: {
                     k: un[rk[old[k]] + 1] for k in keys if k in old and old[k] is not None}
